@@ -27,7 +27,7 @@ QUICK = [_reg(Pipeline("det_multi_t1_p1", 1, UNSORTED2, splitters=SPL, preempt=1
          _reg(Pipeline("det_single_t2", 2, THREE, splitters=SPL, preempt=0, driver="single", view="determinism", pack_size=P2, cross=True)).name]
 THOROUGH = ["det_multi_t1_p1", "det_api_t2", _reg(Pipeline("T_det_api_t3", 3, TWO, splitters=SPL, preempt=0, driver="api", view="determinism")).name,
             _reg(Pipeline("T_det_single_t2_p1", 2, THREE, splitters=SPL, preempt=1, driver="single", view="determinism", pack_size=P2)).name,
-            _reg(Pipeline("T_det_multi_t3", 3, UNSORTED, splitters=SPL, preempt=0, driver="multi", view="determinism")).name]
+            "det_multi_t2", "det_single_t2"]
 
 
 def run(ctx):
